@@ -346,8 +346,8 @@ impl<'a, V: SimValue> Exec<'a, V> {
         }
         let mut universe = BTreeSet::new();
         for &(s, l) in &cfg.zones {
-            for a in s..s + l {
-                universe.insert(a);
+            for i in 0..l {
+                universe.insert(s.wrapping_add(i));
             }
         }
         Ok(Exec {
@@ -596,7 +596,7 @@ impl<'a, V: SimValue> Exec<'a, V> {
         };
         self.c.inc(&format!("store.page-{}", sc));
         let front = matches!(cell(addr), Some(MemoryCell::Backref(_)));
-        let behind = matches!(cell(addr + bytes), Some(MemoryCell::Backref(_)));
+        let behind = matches!(cell(addr.wrapping_add(bytes)), Some(MemoryCell::Backref(_)));
         let pat = match (front, behind) {
             (true, true) => "split-both",
             (true, false) => "split-front",
@@ -610,7 +610,7 @@ impl<'a, V: SimValue> Exec<'a, V> {
             }
         };
         self.c.inc(&format!("store.{}", pat));
-        if page_of(addr) != page_of(addr + bytes - 1) {
+        if page_of(addr) != page_of(addr + (bytes - 1)) {
             self.c.inc("store.crossed-page");
         }
         format!("{}|{}", sc, pat)
@@ -904,7 +904,7 @@ impl<'a, V: SimValue> Exec<'a, V> {
         let page = addr & !(PAGE_SIZE as u64 - 1);
         let ptr_before = party.mem.pages().get(&page).map(|p| RC::as_ptr(p) as usize);
         // permissions must not be changed by a store: remember what is reported now
-        let probe_addrs = [addr, addr + bytes - 1, page, page + PAGE_SIZE as u64 - 1];
+        let probe_addrs = [addr, addr + (bytes - 1), page, page + (PAGE_SIZE as u64 - 1)];
         let before: Vec<Option<u32>> = probe_addrs
             .iter()
             .map(|a| party.mem.permissions(*a).map(|p| p.bits()))
@@ -952,7 +952,7 @@ impl<'a, V: SimValue> Exec<'a, V> {
         if let Some(v) = self.check_load(party, addr, bits, "read-back after store") {
             return Some(v);
         }
-        let mut neighbours = vec![addr + bytes];
+        let mut neighbours = vec![addr.wrapping_add(bytes)];
         if addr > 0 {
             neighbours.push(addr - 1);
         }
@@ -1039,13 +1039,13 @@ impl<'a, V: SimValue> Exec<'a, V> {
             return Some(self.viol("panic", party, panic_site(&p)));
         }
         party.shadow.set_permissions(addr, len, perms);
-        for a in [addr, addr + len / 2, addr + len - 1] {
+        for a in [addr, addr + len / 2, addr + (len - 1)] {
             if let Some(v) = self.check_perm(party, a, "after set_permissions") {
                 return Some(v);
             }
         }
         // data is untouched by a permission change
-        for a in [addr, addr + len - 1] {
+        for a in [addr, addr + (len - 1)] {
             if let Some(v) = self.check_load(party, a, 8, "data after set_permissions") {
                 return Some(v);
             }
@@ -1183,13 +1183,25 @@ pub fn generate(run_seed: u64, index: u64) -> Script {
     let big_backing = huge && rng.chance(1, 6);
 
     // zones
-    let candidates: [u64; 8] = [0x3e8, 0x7e8, 0x10, 0x1_0000_03e8, 0xbd0, 0x7fff_ffff_ffff_f3e8, 0xffff_ffff_0000_07e0, 0x8000_0000_0000_03e8];
+    // (the last two: a zone ending exactly at 2^64, and one across the start of the last page)
+    let candidates: [u64; 10] = [
+        0x3e8, 0x7e8, 0x10, 0x1_0000_03e8, 0xbd0, 0x7fff_ffff_ffff_f3e8, 0xffff_ffff_0000_07e0, 0x8000_0000_0000_03e8,
+        0xffff_ffff_ffff_ffd0, 0xffff_ffff_ffff_fbe8,
+    ];
+    // nothing generated wraps around 2^64: how far an access starting at `a` may reach
+    let room = |a: u64| -> u64 { 0u64.wrapping_sub(a).wrapping_sub(1).saturating_add(1) };
     let nz = rng.range(2, 3) as usize;
     let mut zones: Vec<(u64, u64)> = Vec::new();
     let mut cand: Vec<u64> = candidates.to_vec();
     rng.shuffle(&mut cand);
-    for z in cand.into_iter().take(nz) {
+    for z in cand.into_iter().filter(|z| room(*z) > 1 << 20).take(nz) {
         zones.push((z, 48));
+    }
+    // one run in five: the last zone lies at the very top of the address space (never the
+    // first zone, which the backing constructions below are built around)
+    if rng.chance(1, 5) {
+        let top = if rng.chance(2, 3) { 0xffff_ffff_ffff_ffd0 } else { 0xffff_ffff_ffff_fbe8 };
+        *zones.last_mut().unwrap() = (top, 48);
     }
 
     // backings
@@ -1200,7 +1212,7 @@ pub fn generate(run_seed: u64, index: u64) -> Script {
         // regions are disjoint and non-empty; each overlaps a zone partially so that
         // loads straddle the backing's edge
         for (zi, &(zs, _)) in zones.iter().enumerate() {
-            if rng.chance(2, 3) {
+            if rng.chance(2, 3) && room(zs) > 1 << 20 {
                 let start = zs + rng.range(0, 30);
                 let len = rng.range(1, 40);
                 let len = len.min(zs + 60 - start);
@@ -1325,7 +1337,13 @@ pub fn generate(run_seed: u64, index: u64) -> Script {
         let z = *rng.pick(&zones);
         // allow starting a little before the zone end so that ranges straddle it
         let span = z.1.saturating_sub(bytes.min(z.1)) + 1;
-        z.0 + rng.below(span.max(1))
+        let a = z.0 + rng.below(span.max(1));
+        // at the top of the address space an access may end at 2^64 but not wrap
+        if room(a) < bytes {
+            0u64.wrapping_sub(bytes)
+        } else {
+            a
+        }
     };
     while actions.len() < len {
         let mut r = rng.below(total);
@@ -1375,7 +1393,7 @@ pub fn generate(run_seed: u64, index: u64) -> Script {
                 actions.push(Action::SetPerm {
                     p,
                     addr,
-                    len,
+                    len: len.min(room(addr)),
                     perms: *rng.pick(&[0u32, 1, 2, 3, 4, 5, 6, 7]),
                 });
             }
@@ -1446,8 +1464,8 @@ pub fn generate(run_seed: u64, index: u64) -> Script {
                         let bits = *rng.pick(&[32usize, 64, 128, 256]);
                         // aim at a page boundary: the copy decision changes between cells
                         let z = *rng.pick(&zones);
-                        let boundary = (z.0 | (PAGE_SIZE as u64 - 1)) + 1;
-                        let addr = if boundary < z.0 + z.1 && rng.chance(2, 3) {
+                        let boundary = (z.0 | (PAGE_SIZE as u64 - 1)).wrapping_add(1);
+                        let addr = if room(z.0) > 1 << 20 && boundary < z.0 + z.1 && rng.chance(2, 3) {
                             boundary - rng.range(1, (bits as u64 / 8) - 1).min(boundary - z.0)
                         } else {
                             addr_in(&mut rng, bits as u64 / 8)
@@ -1462,7 +1480,7 @@ pub fn generate(run_seed: u64, index: u64) -> Script {
                         actions.push(Action::SetPerm {
                             p: q,
                             addr,
-                            len: rng.range(1025, 3000),
+                            len: rng.range(1025, 3000).min(room(addr)),
                             perms: *rng.pick(&[1u32, 5, 7]),
                         });
                     }
